@@ -48,10 +48,15 @@ theorem inScope_innermost (d : List (Str × Str)) (frames : List (List (Str × S
     (h : declLast d p = some u) : inScope (d :: frames) p = some u := by
   rw [inScope_cons, h]
 
+example : declLast [("p".toList, "urn:1".toList), ("p".toList, "urn:2".toList)] (some "p".toList)
+    = some "urn:2".toList := by decide
+
 /-- … and an element without a declaration for `p` inherits -/
 theorem inScope_inherits (d : List (Str × Str)) (frames : List (List (Str × Str))) (p : Option Str)
     (h : declLast d p = none) : inScope (d :: frames) p = inScope frames p := by
   rw [inScope_cons, h]
+
+example : declLast [("q".toList, "urn:1".toList)] (some "p".toList) = none := by decide
 
 /-- **source_kind_irrelevant**: bytes, str, path and file object differ only in what the
 tokeniser is handed; two sources with the same event stream give the same parser calls
@@ -185,6 +190,9 @@ theorem indent_ws_only_partial (e : Env) (m : NsMap) (isDt : Str → Bool) (ind 
   unfold layoutNorm
   rw [← hout, ← hw]
   exact hinv.sim.finish (by rw [hw]; exact hfin)
+
+example : "  ".toList ≠ [] ∧ "  ".toList.all Env.ascii.isSpace = true ∧ "\t".toList.all Env.ascii.isSpace = true := by
+  decide
 
 /-- non-vacuity: `<r><a>x</a><b> </b></r>` is free of mixed content and is indented -/
 example : mixedFree Env.ascii
